@@ -13,8 +13,14 @@ claim("C04", SIM + "; oracle: per-direction sequence equality at every step and 
       "trusted: Go toolchain and stdlib, the harness (Party wrapper, SimNet FIFO); premise of the property (reliable FIFO, NUL-free non-empty texts) is built into the generator",
       "DESIGN.md section 5 C04")
 
+claim("C07", SIM + "; oracle: bounded liveness to one common session at quiescence (SSID, highlight, fingerprints, probes)",
+      "Seeded exploration of start patterns (A, B, both; query, whitespace tag, error restart, Send under require-encryption; fresh or refresh after >60 s) x policy pairs x interleavings of two FIFO queues with clock ticks; "
+      "at quiescence both sides must be encrypted in one new common session, and probe texts must flow both ways. Known finding (DH-Commit collision deadlock) is matched by shape and reported as KNOWN-FINDING.",
+      "trusted: Go toolchain/stdlib, harness; one start per side (a second start while an exchange is running is a protocol-inherent race and carries no obligation); release of queued texts is decided by C18",
+      "DESIGN.md section 5 C07")
+
 _todo = "check not built yet in this session (see DESIGN.md section 12 build order)"
-for pid in ["C01", "C02", "C03", "C05", "C06", "C07", "C08", "C09", "C10", "C11", "C12", "C13", "C14", "C15", "C16", "C18", "C19", "C20"]:
+for pid in ["C01", "C02", "C03", "C05", "C06", "C08", "C09", "C10", "C11", "C12", "C13", "C14", "C15", "C16", "C18", "C19", "C20"]:
     NA[pid] = _todo
 NA["C17"] = ("pure function of one input (parse(serialise(x)) = x): no schedule, clock, fault, peer or history for a simulator to vary; "
              "deterministic simulation does not apply (DESIGN.md section 5 C17)")
